@@ -39,7 +39,9 @@ func init() {
 		Real:  "proxy.Proxy initial-login/auth handlers, real auth.authenticator (RSA decrypt, verify token, GenerateServerID, AuthenticateJoin, profile JSON), netmc encryption switch",
 		Model: "client with independent CFB8 + math/big digest; session server = http.RoundTripper model; scripted PreLogin subscriber"})
 	Register(&Scenario{Prop: "C09", Desc: "session-server id equals Java's signed SHA-1 hex digest", Run: func(r *Run) { runOnline(r, true) },
-		Quick: 500, Thorough: 100000,
+		Quick: 50, Thorough: 10000, Race: true,
+		// the property is about the id that goes out to the session server
+		RaceScope: []string{"/java/auth."},
 		Real:   "auth.authenticator.GenerateServerID inside the real three-party online login",
 		Model:  "client-side reference digest (math/big, BigInteger.toString(16) semantics) announced to the session-server model",
 		Assume: []string{"the digest function is pure; it is claimed as the agreement condition of the three-party login: input space explored = login secrets (biased to digest corner classes)"}})
@@ -161,6 +163,33 @@ func runOnline(r *Run, digestFocus bool) {
 	case "extended-token":
 		ob.TokenMode = "extended"
 	}
+	// C09: further honest players log in at the same time, each with its own secret; every
+	// query must carry the digest of the player it names
+	obByName := map[string]*onlineBehaviour{name: ob}
+	var extras []*clientModel
+	if digestFocus {
+		for i, n := 0, r.W.Pick(3); i < n; i++ {
+			en := []string{"Bob", "Cara"}[i]
+			esec, _ := biasedSecret(r, pubDER)
+			eob := &onlineBehaviour{Secret: esec}
+			obByName[en] = eob
+			extras = append(extras, w.addClient(en, prot, func(c *clientModel) {
+				installOnline(c, ss, eob)
+				r.Op("honest-concurrent")
+				c.Connect()
+				c.Phase = "login"
+				if c.Handshake(2) != nil {
+					return
+				}
+				_ = c.sendRaw(loginStartPayload(prot, en, onlineUUID(en)))
+				if c.readUntilJoined() {
+					c.StartReader()
+					simrt.Sleep(50*time.Millisecond, "c09.stay")
+				}
+				c.Close()
+			}))
+		}
+	}
 	var cl *clientModel
 	sawEncReq := false
 	var lastReq *packet.EncryptionRequest
@@ -276,6 +305,13 @@ func runOnline(r *Run, digestFocus bool) {
 	}
 	// C09: every query Gate made for an honest client carries the client's digest
 	for _, q := range ss.Queries {
+		if eob := obByName[q.Username]; eob != nil && eob != ob {
+			if q.ServerID != eob.ServerIDSeen {
+				r.Fail("server-id-digest-differs", "digest-concurrent", "Gate asked the session server about serverId %q for %s, whose client computed %q: %s", q.ServerID, q.Username, eob.ServerIDSeen, desc())
+				return
+			}
+			continue
+		}
 		if ob.Responded && honestCrypto && q.ServerID != ob.ServerIDSeen {
 			r.Fail("server-id-digest-differs", "digest-"+class, "Gate asked the session server about serverId %q, the client computed %q (Java signed SHA-1 hex of secret+public key): %s", q.ServerID, ob.ServerIDSeen, desc())
 			return
@@ -308,6 +344,12 @@ func runOnline(r *Run, digestFocus bool) {
 				r.Fail("profile-not-from-session-server", "profile", "ServerLoginSuccess carries %s/%q; the session server returned %x/%q: %s", cl.LoginSuccess.UUID, cl.LoginSuccess.Username, onlineUUID(name), name, desc())
 				return
 			}
+		}
+	}
+	for _, e := range extras {
+		if e.LoginSuccess == nil {
+			r.Fail("honest-login-refused", "digest-concurrent", "the honest player %s, logging in next to %s, was not admitted: %s", e.Name, name, desc())
+			return
 		}
 	}
 	r.State(strings.Join([]string{behaviour, preLogin, sessMode, fmt.Sprint(admitted), class}, "|"))
